@@ -278,6 +278,8 @@ func (P *Prog) LoadContracts() error {
 		}
 	}
 	ext, _ := filepath.Glob(filepath.Join(P.VerifDir, "prelude", "*.contracts"))
+	lem, _ := filepath.Glob(filepath.Join(P.VerifDir, "lemmas", "*.contracts"))
+	ext = append(ext, lem...)
 	sort.Strings(ext)
 	for _, f := range ext {
 		if err := P.cs.parseFile(f, "", true); err != nil {
